@@ -21,7 +21,9 @@ TRUSTED = [
 MODES = {"files": [], "check": ["--check"], "stdout": ["--emit", "stdout"]}
 UNF = "pub fn  %s( ){}\n"
 FAULT_TEXT = {"lexer": "pub fn f() { let s = \"abc; }\n", "unclosed": "pub fn f() {\n    let x = (1;\n",
-              "blockcomment": "pub fn f() { /* abc\n", "rawstring": "pub fn f() { let s = r#\"abc; }\n"}
+              "blockcomment": "pub fn f() { /* abc\n", "rawstring": "pub fn f() { let s = r#\"abc; }\n",
+              # an error the parser recovers from (it still returns a syntax tree): must fail all the same
+              "recoverable": "pub fn f() { let x = 1 }\n"}
 LEX_FATAL = ("lexer", "blockcomment", "rawstring")     # rustc raises FatalError while creating the parser (caught since the repair of ParserBuilder::build)
 A_STYLES = ["file", "moddir", "pathattr"]
 B_STYLES = ["file", "moddir"]
@@ -80,6 +82,13 @@ def inject(d, pos, kind, position):
     elif kind == "disabled":
         open(p, "w").write(FAULT_TEXT["lexer"])
         open(os.path.join(d, "rustfmt.toml"), "w").write("disable_all_formatting = true\n")
+    elif kind == "ignored_sibling":
+        # the file at `position` has a recoverable syntax error; its sibling (first <-> last) has one too but is
+        # matched by `ignore`, so its diagnostics are silenced -- the error of the non-ignored file must still count
+        other = pos["last" if position == "first" else "first"]
+        open(p, "w").write(FAULT_TEXT["recoverable"])
+        open(os.path.join(d, other), "w").write("pub fn g() { let y = 2 }\n" + ("mod a1;\n" if position == "last" else ""))
+        open(os.path.join(d, "rustfmt.toml"), "w").write("ignore = [\"%s\"]\n" % other)
     elif kind == "missing":
         os.remove(p)
     elif kind == "ambiguous":
@@ -183,9 +192,10 @@ def run(tier, seed, replay):
 
     # ---- cases
     kinds = []
-    for k in ("lexer", "unclosed"):
+    for k in ("lexer", "unclosed", "recoverable"):
         for p in ("root", "first", "last", "grand", "cfgif"):
             kinds.append((k, p))
+    kinds += [("ignored_sibling", "first"), ("ignored_sibling", "last")]
     kinds += [("blockcomment", "root"), ("blockcomment", "first"), ("rawstring", "root"), ("rawstring", "grand")]
     for k in ("missing", "ambiguous"):
         for p in ("first", "last", "grand", "cfgif"):
@@ -198,7 +208,7 @@ def run(tier, seed, replay):
             if kind == "ambiguous" and position in ("first", "grand") and a_style == "pathattr":
                 a_style = "file"        # a #[path] module has a single candidate
             for mode in MODES:
-                orders = ["bad_first", "ok_first"] if kind in ("bad_toml", "lexer", "unclosed", "blockcomment") and position == "root" else ["bad_first"]
+                orders = ["bad_first", "ok_first"] if kind in ("bad_toml", "lexer", "unclosed", "blockcomment", "recoverable") and position == "root" else ["bad_first"]
                 for order in orders:
                     cases.append({"kind": kind, "position": position, "a_style": a_style, "b_style": b_style, "mode": mode, "order": order})
     seen = set()
@@ -248,7 +258,7 @@ def run(tier, seed, replay):
                           "before_k": before_k, "after_k": tree_files(kd), "before_o": before_o, "after_o": tree_files(od),
                           "ok_content": {rel: open(os.path.join(od, rel)).read() for rel in ok_files},
                           "strace": st, "roots": roots, "bad_root": bad_root, "ok_root": ok_root, "pos": pos, "dir": d,
-                          "faulty_abs": os.path.join(kd, pos.get(c["position"], "lib.rs")) if (c["kind"] in FAULT_TEXT or c["kind"] == "disabled") else None}
+                          "faulty_abs": os.path.join(kd, pos.get(c["position"], "lib.rs")) if (c["kind"] in FAULT_TEXT or c["kind"] in ("disabled", "ignored_sibling")) else None}
         return res
 
     with ThreadPoolExecutor(max_workers=common.NCPU) as ex:
@@ -314,16 +324,22 @@ def run(tier, seed, replay):
         num = {p: i + 1 for i, p in enumerate(allp)}
         hd = coqterm.render(c["mode"] == "check")
 
-        def info(p, outcome="POk"):
-            return "(MkInfo %d %s false false false (MkFres flags_zero %s false))" % (num[p], outcome, hd)
+        def info(p, outcome="POk", ignored=False):
+            return "(MkInfo %d %s false false %s (MkFres flags_zero %s false))" % (num[p], outcome, "true" if ignored else "false", hd)
 
-        oc = {"lexer": "PLexFatal", "blockcomment": "PLexFatal", "rawstring": "PLexFatal", "unclosed": "PFatal", "missing": "PMissing", "ambiguous": "PAmbiguous", "disabled": "PLexFatal"}
+        oc = {"lexer": "PLexFatal", "blockcomment": "PLexFatal", "rawstring": "PLexFatal", "unclosed": "PFatal", "missing": "PMissing", "ambiguous": "PAmbiguous", "disabled": "PLexFatal", "recoverable": "PRecoverable", "ignored_sibling": "PRecoverable"}
         def out_of(position):
+            if c["kind"] == "ignored_sibling" and position in ("first", "last"):
+                # the diagnostics of an ignored file are silenced and reset (SilentOnIgnoredFilesEmitter +
+                # can_reset_errors): parse_file_as_module returns its recovered tree, i.e. the outcome is POk
+                return "PRecoverable" if position == c["position"] else "POk"
             return oc[c["kind"]] if (c["kind"] in oc and c["position"] == position) else "POk"
+        def ign(position):
+            return c["kind"] == "ignored_sibling" and position in ("first", "last") and position != c["position"]
         P = {k: os.path.join(kd, v) for k, v in pos.items()}
         tree = "(Node %s [Node %s [Node %s []]; Node %s []; Node %s []])" % (
-            info(P["root"], out_of("root")), info(P["first"], out_of("first")), info(P["grand"], out_of("grand")),
-            info(P["last"], out_of("last")), info(P["cfgif"], out_of("cfgif")))
+            info(P["root"], out_of("root")), info(P["first"], out_of("first"), ign("first")), info(P["grand"], out_of("grand")),
+            info(P["last"], out_of("last"), ign("last")), info(P["cfgif"], out_of("cfgif")))
         okd = os.path.join(o["dir"], "ok")
         oktree = "(Node %s [Node %s []])" % (info(os.path.join(okd, "main.rs")), info(os.path.join(okd, "h.rs")))
         load = {"bad_toml": "LocalErr", "version": "(LocalOk (MkCfg false false true false))",
@@ -347,7 +363,7 @@ def run(tier, seed, replay):
                 fail_ev = [2, None]
             elif "failed to resolve mod" in err:
                 fail_ev = [6, None]
-            elif c["kind"] in ("lexer", "unclosed", "blockcomment", "rawstring") and c["position"] == "root" and re.search(r"\berror\b", err):
+            elif c["kind"] in ("lexer", "unclosed", "blockcomment", "rawstring", "recoverable") and c["position"] == "root" and re.search(r"\berror\b", err):
                 fail_ev = [4, None]
             if fail_ev is not None:
                 per[t["bad_root"]].append(fail_ev)
@@ -406,7 +422,7 @@ def run(tier, seed, replay):
         "evaluations": len(cases) * (2 if have_strace else 1),
         "distinct_nontrivial": len(nontrivial),
         "exhaustive": tier != "quick",
-        "rule": "fault kinds {unterminated string, unclosed delimiter} x position {root, first child, last child, grandchild, inside cfg_if!}, unterminated block comment x {root, first child}, unterminated raw string x {root, grandchild}, {missing module file, both x.rs and x/mod.rs} x {first, last, grandchild, cfg_if}, bad rustfmt.toml, required_version mismatch, missing path, directory as input, disable_all_formatting with a syntax error, no fault; module layouts a in {a.rs, a/mod.rs, #[path]} x b in {b.rs, b/mod.rs} (quick: one random layout per fault, thorough: all); x {files, --check, --emit stdout}; a healthy second root (2 files) on the same command line, named after the failing one (and before it for bad rustfmt.toml / root syntax error); every run twice: plain (oracle: sha256 of every file, exit status, stderr, healthy root formatted, no partial file) and under strace --verbose (event trace). No input known that makes the rustc parser panic: PPanic is not exercised on the implementation. non-trivial = a fault is injected",
+        "rule": "fault kinds {unterminated string, unclosed delimiter, recoverable syntax error} x position {root, first child, last child, grandchild, inside cfg_if!}, unterminated block comment x {root, first child}, unterminated raw string x {root, grandchild}, {missing module file, both x.rs and x/mod.rs} x {first, last, grandchild, cfg_if}, a recoverable syntax error next to an `ignore`d sibling that has one too (both orders), bad rustfmt.toml, required_version mismatch, missing path, directory as input, disable_all_formatting with a syntax error, no fault; module layouts a in {a.rs, a/mod.rs, #[path]} x b in {b.rs, b/mod.rs} (quick: one random layout per fault, thorough: all); x {files, --check, --emit stdout}; a healthy second root (2 files) on the same command line, named after the failing one (and before it for bad rustfmt.toml / root syntax error); every run twice: plain (oracle: sha256 of every file, exit status, stderr, healthy root formatted, no partial file) and under strace --verbose (event trace). No input known that makes the rustc parser panic: PPanic is not exercised on the implementation. non-trivial = a fault is injected",
         "samples": cases[:2] + cases[len(cases) // 2:len(cases) // 2 + 2] + cases[-1:],
         "correspondence_disagreements": len(disagreements),
         "traces_validated_against_impl": validated,
